@@ -83,6 +83,15 @@ var curatedFENs = []string{
 	"8/8/8/3k4/8/2nK4/8/8 w - - 0 1",
 	"r3k2r/pppq1ppp/2npbn2/2b1p3/2B1P3/2NPBN2/PPPQ1PPP/R3K2R w KQkq - 4 8",
 	"2kr3r/pppq1ppp/2npbn2/2b1p3/2B1P3/2NPBN2/PPPQ1PPP/R3K2R w KQ - 5 9",
+	// corner rooks with castling rights under attack by pawns about to promote, knights, bishops, rooks
+	"r3k2r/1P4P1/8/8/8/8/1p4p1/R3K2R w KQkq - 0 1",
+	"r3k2r/1P4P1/8/8/8/8/1p4p1/R3K2R b KQkq - 0 1",
+	"r3k3/1P6/8/8/r7/8/8/6K1 w q - 0 1",
+	"6k1/8/8/R7/8/8/1p6/R3K3 b Q - 0 1",
+	"r3k2r/2N2N2/8/8/8/8/2n2n2/R3K2R w KQkq - 0 1",
+	"r3k2r/8/8/3BB3/3bb3/8/8/R3K2R w KQkq - 0 1",
+	"r3k2r/8/8/8/8/8/8/R3K2R w KQkq - 0 1",
+	"r3k2r/p6p/8/8/8/8/P6P/R3K2R w KQkq - 0 1",
 }
 
 func legalMoves(pos *board.Position, turn board.Color) []board.Move {
@@ -102,6 +111,18 @@ func isSpecial(m board.Move) bool {
 // pickMove chooses uniformly among the legal moves, with a 30% bias towards captures, castling,
 // en passant, jumps and promotions when available.
 func pickMove(c *caseCtx, moves []board.Move) board.Move {
+	if c.r.Intn(2) == 0 {
+		// rare kinds first: capture-promotions, then moves touching a corner (castling rights)
+		var rare []board.Move
+		for _, m := range moves {
+			if m.Type == board.CapturePromotion || m.Type == board.EnPassant || m.IsCastle() {
+				rare = append(rare, m)
+			}
+		}
+		if len(rare) > 0 && c.r.Intn(2) == 0 {
+			return rare[c.r.Intn(len(rare))]
+		}
+	}
 	if c.r.Intn(10) < 3 {
 		var sp []board.Move
 		for _, m := range moves {
